@@ -24,7 +24,9 @@ any_text = st.one_of(short_text, short_text, st.just(""), st.text(alphabet=ASCII
 _FN = "abcdefghijklmnopqrstuvwxyzABCDEFGHIJKLMNOPQRSTUVWXYZ0123456789_-. "
 fname_text = st.one_of(*([st.text(alphabet=_FN, min_size=1, max_size=40)] * 5),
                        st.text(alphabet=_FN + "\u00fc\u00e9\u00c5\u4e2d", min_size=1, max_size=20)
-                       ).map(lambda s: s.strip(" .") or "f").map(lambda s: s + ".sqw")
+                       ).map(lambda s: s.strip(" .") or "f").flatmap(
+    # mostly the usual suffix; also none at all or another one (the file named is the file written)
+    lambda s: st.sampled_from([s + ".sqw", s + ".sqw", s + ".sqw", s.replace(".", "_"), s + ".dat"]))
 
 
 def has_non_ascii(obj) -> bool:
@@ -361,6 +363,13 @@ def _run_builder(case, calls, w, target):
     chunk = case.get("pix", {}).get("chunk") if "pix" in calls else None
     ret = builder.create() if chunk is None else builder.create(chunk_size=chunk)
     w.returned = ret
+    if case["target"] in ("file", "handle"):
+        import os as _os
+        from ..core import Violation
+        d = _os.path.dirname(w.path or w.handle_path)
+        if _os.listdir(d) != [case["fname"]]:
+            raise Violation("wrong-file", f"building into the {case['target']} target {case['fname']!r} left the files "
+                                          f"{sorted(_os.listdir(d))} in an otherwise empty directory")
     if case["target"] == "handle":
         target.flush()
         with open(w.handle_path, "rb") as f:
